@@ -488,6 +488,10 @@ func c15Scenario(c *vk.Ctx, r *rand.Rand, env *relayEnv, keys []KeySpec, sc stri
 		probeSent = cl.SentBytes()
 	}
 	rec, done := rig.WaitDone(cl.Local, relayTimeout+c06B)
+	if cl.LateBy(relayTimeout / 2) {
+		c.Inconclusive("scenario " + sc + ": the harness client wrote later than half the handshake timeout after dialling (loaded machine)")
+		return true
+	}
 	c.Eval(fmt.Sprintf("scenario|%s|%s|raw=%v", sc, k.Cipher, rig.opts.Raw))
 	if !done || rec == nil {
 		c.Violation("C15/handler-did-not-finish", map[string]any{"scenario": sc})
